@@ -444,6 +444,137 @@ fn descs_strategy(segment_size: u32, k: u32) -> impl Strategy<Value = Vec<(u8, I
     prop::collection::vec((any::<u8>(), idop, 0u8..3, any::<bool>(), len), 0..30)
 }
 
+
+/// libFuzzer leg (codec layer): a catalogue read from the bytes. Names are printable
+/// ASCII (plus tab), non-empty and unique within their sample, as every caller guarantees.
+pub fn from_fuzz(data: &[u8]) -> Catalog {
+    use crate::fuzzing::Cur;
+    let mut c = Cur::new(data);
+    let b0 = c.u8();
+    let segment_size = if b0 & 1 == 1 { 60000 } else { 10 + (c.u16() % 4990) as u32 };
+    let k = 9 + (c.u8() % 24) as u32;
+    let batch = 1 + (c.u8() % 59) as u16;
+    let np = 1 + c.u8() % 6;
+    let mut pool = Vec::new();
+    for _ in 0..np {
+        let sel = c.u8() % 9;
+        pool.push(match sel {
+            0 | 1 => (c.u8() % 16) as u32,
+            2..=6 => 16 + (c.u8() as u32 % 184),
+            7 => 200 + c.u32() % 99_800,
+            _ => 100_000,
+        });
+    }
+    let pred = segment_size + k;
+    let ns = 1 + c.u8() % 8;
+    let mut last: std::collections::BTreeMap<u32, u32> = Default::default();
+    let mut samples = Vec::new();
+    let ch = |b: u8| -> char {
+        match b % 100 {
+            0..=94 => (0x20 + b % 100) as char,
+            95 | 96 => ' ',
+            97 => '\t',
+            _ => '=',
+        }
+    };
+    for si in 0..ns {
+        if c.is_empty() && si > 0 {
+            break;
+        }
+        let nc = 1 + c.u8() % 12;
+        let mut contigs: Vec<(String, Vec<D>)> = Vec::new();
+        let mut prev = String::new();
+        for ci in 0..nc {
+            if c.is_empty() && ci > 0 {
+                break;
+            }
+            let op = c.u8() % 6;
+            let mut name: String = match op {
+                0 | 1 => {
+                    let l = 1 + (c.u8() % 48) as usize;
+                    c.take(l).iter().map(|&b| ch(b)).collect()
+                }
+                2 => {
+                    // previous name with point mutations (same lengths => "same field" / char-level deltas)
+                    let mut b: Vec<char> = prev.chars().collect();
+                    let nm = 1 + c.u8() % 3;
+                    for _ in 0..nm {
+                        if !b.is_empty() {
+                            let i = (c.u8() as usize * b.len()) >> 8;
+                            b[i] = ch(c.u8());
+                        }
+                    }
+                    b.into_iter().collect()
+                }
+                3 => format!("{}{}", prev, ch(c.u8())),
+                4 => {
+                    // a long run of one character, length around the run-marker limits
+                    let n = [99usize, 100, 101, 102, 199, 200, 201, 250][(c.u8() % 8) as usize];
+                    let mut s: String = std::iter::repeat(ch(c.u8())).take(n).collect();
+                    s.push(' ');
+                    s.push(ch(c.u8()));
+                    s
+                }
+                _ => {
+                    // drop or add a field
+                    let mut f: Vec<&str> = prev.split(' ').collect();
+                    if c.u8() & 1 == 0 && f.len() > 1 {
+                        f.pop();
+                        f.join(" ")
+                    } else {
+                        format!("{} f{}", prev, c.u8())
+                    }
+                }
+            };
+            if name.is_empty() {
+                name.push('n');
+            }
+            if contigs.iter().any(|(n, _)| *n == name) {
+                name = format!("{}#{}", name, ci);
+            }
+            let nd = c.u8() % 10;
+            let mut ds = Vec::new();
+            for _ in 0..nd {
+                let g = pool[c.u8() as usize % pool.len()];
+                let prevg = last.get(&g).copied();
+                let opb = c.u8();
+                let arg = c.u8() as u32;
+                let id = match (opb % 8, prevg) {
+                    (7, _) => c.u32() % 1_000_000,
+                    (5 | 6, None) => 2 + arg % 58,
+                    (_, None) => if g < 16 { 1 } else { 0 },
+                    (0 | 1 | 2, Some(p)) => p + 1,
+                    (3, Some(p)) => p,
+                    (4, _) => 0,
+                    (5, Some(p)) => p.saturating_sub(1 + arg % 19),
+                    (_, Some(p)) => p + 2 + arg % 58,
+                };
+                last.insert(g, id);
+                let lb = c.u8();
+                let len = match lb % 8 {
+                    0 | 1 | 2 => pred.saturating_sub(20) + (c.u8() as u32 % 40),
+                    3 | 4 => c.u32() % (2 * pred + 50),
+                    5 => 0,
+                    6 => u32::MAX / 2,
+                    _ => k + (c.u16() as u32 % 300),
+                };
+                ds.push(D { g, id, rc: opb & 0x80 != 0, len });
+            }
+            prev = name.clone();
+            contigs.push((name, ds));
+        }
+        samples.push((format!("S{}", si), contigs));
+    }
+    Catalog { segment_size, k, batch, samples }
+}
+
+pub fn fuzz_seeds() -> Vec<Vec<u8>> {
+    vec![
+        vec![0, 100, 0, 12, 3, 2, 3, 40, 0, 7, 2, 3, 0, 10, b'c', b'h', b'r', b'1', 95, b'l', b'e', b'n', b'=', b'5', 3, 0, 0, 0, 0, 0, 1, 0, 1, 5, 1, 0, 3, 2, 1, 7, 50, 2, 0, 0, 3, b'x', 1, 0, 4, 0, 2, 3, 3, 0, 0, 0, 4, 1, 65, 66, 0, 5, 0, 9, 0],
+        vec![1, 20, 5, 1, 0, 3, 1, 3, 0, 3, b'a', b'b', b'c', 2, 0, 0, 0, 0, 0, 0, 0, 7, 1, 2, 3, 4, 0, 2, 1, 5, 9, 0],
+    ]
+}
+
 fn catalog_strategy(max_samples: usize, max_names: usize) -> impl Strategy<Value = Catalog> {
     let params = (prop_oneof![Just(60000u32), 10u32..5000], 9u32..=32);
     params.prop_flat_map(move |(segment_size, k)| {
@@ -499,6 +630,9 @@ pub fn run(ctx: &Ctx, stats: &mut Stats) {
     let n3 = ctx.tier.pick(192, 6_000);
     let cfg = GenCfg { max_contig: 3000, max_samples: 5, many_samples_pct: 10, single_file: None, vary_presentation: false };
     run_prop(ctx, stats, "end-to-end", n3, gen::collection_strategy(cfg), &move |c: &Collection| check_e2e(&c3, c));
+    if ctx.tier == Tier::Thorough || std::env::var("VERIF_FUZZ").is_ok() {
+        crate::fuzzing::run_stage(ctx, stats, "codec", ctx.tier.pick(200_000, 3_000_000));
+    }
 }
 
 pub fn replay(ctx: &Ctx, stage: &str, case: &Value) -> Report {
